@@ -842,6 +842,46 @@ def check_air_fault_enum(prop, tier, repo, verif):
     return res
 
 
+def check_mast_hash_reference(prop, tier, repo, verif):
+    t0 = time.time()
+    res = {'unit': 'bounded:mast_hash_reference', 'engine': 'bounded run of the real CodeBlock constructors / assembler / processor against an independent implementation of the MAST hash written from docs/src/design/programs.md on top of miden-crypto\'s RPO (tools/mastref, adapted from the fourth C08 sub-agent\'s demo; release build)', 'status': 'ok',
+           'failures': [], 'undecided': [], 'bounded': True,
+           'bound': 'about 1.08 million checks, 69109 distinct roots: spans with EVERY push / non-push pattern up to length 12, every length 1..160 with structured and random push positions, immediates in every slot, spans around 1..4 full batches +- 1 operation; join chains of 1..9 siblings, if / else with empty branches, while, repeat, nesting to depth 4, call / syscall / dyncall / dynexec, procedures with 0..4 locals - built directly with the CodeBlock constructors and assembled from MASM in release and debug mode; per node: expected hash (own batching + RPO hash_elements / merge_in_domain) == CodeBlock::hash(), groups and number of groups, op batches decoded back to the operation sequence up to NOOP padding; invariance (comments, whitespace, renaming, debug mode, each decorator kind at each position) and sensitivity (each operation / immediate replaced, no two sequences share a root); execute(): trace.program_hash() == program.hash()'}
+    binp, err = build_tool(repo, verif, 'mastref', release=True)
+    if binp is None:
+        res['status'] = 'undecided'
+        res['undecided'].append('mastref does not build against the current tree: ' + err)
+        return res
+    try:
+        p = subprocess.run([binp], stdout=subprocess.PIPE, stderr=subprocess.PIPE, text=True, timeout=7200)
+    except subprocess.TimeoutExpired:
+        res['status'] = 'undecided'
+        res['undecided'].append('mastref timed out')
+        return res
+    m = re.search(r'SUMMARY checks=(\d+) failures=(\d+) roots=(\d+)', p.stdout)
+    if not m:
+        res['status'] = 'undecided'
+        res['undecided'].append('mastref gave no summary (panic?): ' + (p.stdout + p.stderr)[-500:])
+        return res
+    for ln in p.stdout.split('\n'):
+        mm = re.match(r'FAILCASE (\S+) :: (.*)', ln)
+        if not mm:
+            continue
+        cat, detail = mm.groups()
+        if len(res['failures']) > 30:
+            break
+        res['failures'].append({'obligation': '%s/bounded/mast_hash_reference#%s' % (prop, re.sub(r'[^A-Za-z0-9<=]+', '-', cat).strip('-')[:80]), 'message': 'the program / block hash deviates from the documented MAST hash: [%s] %s' % (cat, detail[:400]),
+                                'rendered': ln[:1800], 'origins': ['core/src/program/blocks', 'core/src/operations/mod.rs', 'assembly/src/assembler/mod.rs', 'assembly/src/assembler/span_builder.rs', 'processor/src/lib.rs'],
+                                'failing_input': {'category': cat, 'first_failure': detail[:1600], 'cmd': '.cache/target/release/mastref'}})
+    if int(m.group(2)) and not res['failures']:
+        res['failures'].append({'obligation': '%s/bounded/mast_hash_reference#failures' % prop, 'message': '%s failing checks' % m.group(2), 'rendered': p.stdout[-800:], 'origins': []})
+    if res['failures']:
+        res['status'] = 'fail'
+    res['wall_s'] = round(time.time() - t0, 1)
+    res['checker_cmd'] = 'tools/mastref (built against the current tree): %s checks, %s distinct roots' % (m.group(1), m.group(3))
+    return res
+
+
 def check_hash_invariance(prop, tier, repo, verif):
     t0 = time.time()
     res = {'unit': 'bounded:hash_invariance', 'engine': 'bounded run of the real assembler and processor (tools/hashprobe)', 'status': 'ok',
